@@ -18,4 +18,5 @@ def run(chk):
         assumptions=["absolute non-fabrication is not testable for garbage that itself contains a checksum-valid frame; the searcher checks that returned frames are written frames in order (DESIGN C16_gate)"],
         evaluations=lambda s: cu.total(s, "frames_alone") + cu.total(s, "clean_concatenations") + cu.total(s, "segmentations") + cu.total(s, "garbage_streams"),
         nontrivial=lambda s: cu.total(s, "frames_alone") + cu.total(s, "segmentations") + cu.total(s, "garbage_streams"),
-        debug_scale=30)
+        debug_scale=30,
+        extra=lambda c, by_prof: __import__("checks.codec_common", fromlist=["x"]).encoder_model_tie(chk, c.cases))
